@@ -24,6 +24,9 @@ _CTX = mp.get_context("fork")
 
 def _worker(conn: Any, fn: Callable[[Any], Any], init: Callable[[], None] | None) -> None:
     try:
+        if os.environ.get("VERIF_DEBUG_HANG"):
+            import faulthandler
+            faulthandler.dump_traceback_later(float(os.environ["VERIF_DEBUG_HANG"]), exit=False)
         if init is not None:
             init()
         while True:
